@@ -76,8 +76,12 @@ static void judge_step(Segment *seg, const Slot *t, const Rect &L, const Positio
         if (!in0) st.add("started_outside_limit_recorded");
         else {
             st.add("limit_judged");
+            // when no axis offers a free position resolve() returns (0,0) and the caller stores it as the new shift whatever the
+            // limit says: with an accumulated offset that a narrower (rule-changed) limit no longer contains, that fallback
+            // leaves offset + shift outside the rectangle (known finding, keyed separately)
+            const bool zero_fallback = isCol && s1.x == 0 && s1.y == 0;
             if (!in1 && !(limit_needs_resolved && isCol))
-                V(fmt("%s:limit", what).c_str(), "offset (%g,%g) + shift (%g,%g) was inside the limit (%g,%g,%g,%g); after the step the shift is (%g,%g) and the offset lies outside; dir=%d", o.x, o.y, s0.x, s0.y, L.bl.x, L.bl.y, L.tr.x, L.tr.y, s1.x, s1.y, dir);
+                V(fmt("%s:limit%s", what, zero_fallback ? ":unresolved-zero-fallback" : "").c_str(), "offset (%g,%g) + shift (%g,%g) was inside the limit (%g,%g,%g,%g); after the step the shift is (%g,%g) and the offset lies outside; dir=%d", o.x, o.y, s0.x, s0.y, L.bl.x, L.bl.y, L.tr.x, L.tr.y, s1.x, s1.y, dir);
         }
     }
     if (isCol) { st.add("unresolved_steps"); return; }
